@@ -25,6 +25,9 @@ pub struct Case {
     /// the tape is read by `gen::build_rec` (recursive type shapes) instead of `gen::build_ast`
     #[serde(default)]
     pub rec: bool,
+    /// LR parser generated over the right-nulled table (LALR_RN)
+    #[serde(default)]
+    pub rn_table: bool,
 }
 
 pub fn spec_of(c: &Case) -> GrammarSpec {
@@ -36,7 +39,7 @@ pub fn spec_of(c: &Case) -> GrammarSpec {
 }
 
 fn bcfg(c: &Case) -> BConfig {
-    BConfig { glr: c.glr, builder: 0, arrays: false, loc_info: c.loc_info, fancy: false, custom_lexer: false }
+    BConfig { glr: c.glr, builder: 0, arrays: false, loc_info: c.loc_info, fancy: false, custom_lexer: false, rn_table: c.rn_table }
 }
 
 pub fn inputs_of(c: &Case, spec: &GrammarSpec) -> Vec<String> {
@@ -193,7 +196,7 @@ fn gen_cases(seed: u64, batch: usize, ngrammars: usize) -> Vec<Case> {
         let tape = gen::g_ast().new_tree(&mut runner).unwrap().current();
         let inputs = gen::tapes(8..12, 40).new_tree(&mut runner).unwrap().current();
         for glr in [false, true] {
-            v.push(Case { tape: tape.clone(), glr, loc_info: (g + glr as usize) % 2 == 0, inputs: inputs.clone(), rec: false });
+            v.push(Case { tape: tape.clone(), glr, loc_info: (g + glr as usize) % 2 == 0, inputs: inputs.clone(), rec: false, rn_table: false });
         }
     }
     // recursive type shapes: the element of a vector / optional refers back to it (boxed
@@ -202,7 +205,7 @@ fn gen_cases(seed: u64, batch: usize, ngrammars: usize) -> Vec<Case> {
         let tape = gen::g_rec().new_tree(&mut runner).unwrap().current();
         let inputs = gen::tapes(8..12, 40).new_tree(&mut runner).unwrap().current();
         let glr = g % 3 == 2;
-        v.push(Case { tape, glr, loc_info: g % 4 == 1, inputs, rec: true });
+        v.push(Case { tape, glr, loc_info: g % 4 == 1, inputs, rec: true, rn_table: g % 3 == 1 });
     }
     v
 }
